@@ -7,12 +7,12 @@ ROOT = os.path.dirname(os.path.dirname(os.path.abspath(__file__)))
 # id -> (engine, level category, technique, level text, level note, design ref)
 CHECKS = {
  "C02": ("bfs", "model_checking",
-  "explicit-state model checking: breadth-first search over every operation sequence on the real MemoryStore/SQLiteStore, de-duplicated on the implementation state, every transition checked against the qmodel reference model",
-  "Every sequence of store operations over the alphabet (enqueue/batch incl. duplicates and explicit timestamps, dequeue with filters, ack/nack/extend/mark-dead single and batch with current/stale/unknown/blank leases, cancel/requeue/resume by id and by filter, DLQ requeue/delete, list/stats, clock steps) up to the stated depth, on both executable backends and every limits/retention configuration of the tier, is executed on the real store; after every transition the result and a private-state snapshot of all rows must equal what the relational reference model allows, SQLite's trigger-maintained counters must equal the real counts, and every observed state change must be an edge of the documented machine. A bounded-exhaustive coverage statement (states, transitions, depth), not a proof for unbounded histories.",
+  "explicit-state model checking: breadth-first search over every operation sequence on the real MemoryStore/SQLiteStore, de-duplicated on the implementation state, every transition checked against the qmodel reference model; plus stateless exploration of two SQLite handles on one file under the controlled scheduler",
+  "Every sequence of store operations over the alphabet (enqueue/batch incl. duplicates and explicit timestamps, dequeue with filters, ack/nack/extend/mark-dead single and batch with current/stale/unknown/blank leases, cancel/requeue/resume by id and by filter, DLQ requeue/delete, list/stats, clock steps) up to the stated depth, on both executable backends and every limits/retention configuration of the tier, is executed on the real store; after every transition the result and a private-state snapshot of all rows must equal what the relational reference model allows, SQLite's trigger-maintained counters must equal the real counts, and every observed state change must be an edge of the documented machine. Two-handle part: the gateway's SQLiteStore and a second default-option SQLiteStore on the same file (what the MCP server's direct mode opens) run settlements against cancel/requeue/resume/DLQ operations; every interleaving of their statements that SQLite's write lock admits is executed (statement-level scheduling points, unbounded under sleep-set reduction) and must be linearizable against the model. A bounded-exhaustive coverage statement (states, transitions, depth), not a proof for unbounded histories.",
   "Trusted: the reference model kit/qmodel (written from the property statements, DESIGN.md app. A), the canonical state dump (over-fine keys only cost time), the alphabet as the small scope. Postgres is not executed.",
   "DESIGN.md §4.2 §5 §6 C02"),
  "C03": ("sched", "model_checking",
-  "stateless model checking of the real store under a controlled scheduler (testing/synctest bubble + import-rewritten sync/atomic/database-sql shims): DFS over all interleavings (memory) / preemption-bounded (SQLite), linearizability against qmodel per execution",
+  "stateless model checking of the real store under a controlled scheduler (testing/synctest bubble + import-rewritten sync/atomic/database-sql shims): DFS over all interleavings (memory) / preemption-bounded and sleep-set-reduced unbounded (SQLite), linearizability against qmodel per execution",
   "Every interleaving (memory backend: all; SQLite: up to the stated preemption bound at lock, atomic and connection-acquisition points) of 2-3 consumers that dequeue and then ack/nack/extend their own lease, an operator that cancels and requeues, and a clock that crosses the lease expiry is executed on the real store; each execution's call/return history must be linearizable against the reference model and pass a direct lease-exclusivity monitor (fresh lease ids, attempt+1, no second grant unless something ended the first). Determinism of the harness is re-proved on every run (default schedule twice, replay divergence = hard error).",
   "Trusted: scheduling points at synchronisation operations suffice provided the code is data-race free (separate free-running -race pass is a side condition); virtual clock moves only between store operations; small scope: 2 messages, 3-4 threads.",
   "DESIGN.md §4.1 §6 C03"),
@@ -48,9 +48,9 @@ CHECKS = {
   "DESIGN.md §6 C19"),
 
  "C01": ("crash", "fault_enumeration",
-  "crash-point enumeration by real process death: the child process running the scripted history on the real handlers and SQLite store is SIGKILLed before its n-th file-mutating syscall for every n, then the production restart path runs and a reference model of acknowledged operations judges the database",
-  "For each scripted history (ingress on a pull route and on a two-target fan-out route, Admin publish incl. a refused duplicate batch, pull dequeue / ack / nack / dead-letter / batch ack, explicit WAL checkpoints) every crash point is taken: SIGKILL before each of the K file-mutating syscalls (pwrite64, fsync, ftruncate, ...) SQLite issues, observed through a patched copy of the libc syscall trampoline. After each death the database is reopened through the production boot path and must open, pass integrity_check, have consistent counters, contain exactly one of the admissible outcomes (acknowledged operations exactly; the single unacknowledged operation applied, not applied, or a fan-out prefix; nothing nobody sent; no mixed fields) and offer every unsettled message again exactly once after lease expiry with identical payload and headers.",
-  "Process death only (page cache survives); power loss is not modelled. Acknowledgement = first WriteHeader/Write. Sequential histories (interleavings of concurrent requests: C03/C12 at store level).",
+  "crash-point enumeration by real process death: the child process running the scripted history on the real handlers and SQLite store is SIGKILLed before its n-th file-mutating syscall for every n, then the production restart path runs and a reference model of acknowledged operations judges the database; for concurrent clients the child runs under the controlled scheduler and every (schedule, crash point) pair is taken",
+  "For each scripted history (ingress on a pull route and on a two-target fan-out route, Admin publish incl. a refused duplicate batch, pull dequeue / ack / nack / dead-letter / batch ack, explicit WAL checkpoints) every crash point is taken: SIGKILL before each of the K file-mutating syscalls (pwrite64, fsync, ftruncate, ...) SQLite issues, observed through a patched copy of the libc syscall trampoline. After each death the database is reopened through the production boot path and must open, pass integrity_check, have consistent counters, contain exactly one of the admissible outcomes (acknowledged operations exactly; the single unacknowledged operation applied, not applied, or a fan-out prefix; nothing nobody sent; no mixed fields) and offer every unsettled message again exactly once after lease expiry with identical payload and headers. Every history of length 2 (thorough: 4) over the operation alphabet is generated and crashed at every point as well. Concurrent part: 2-3 clients (producers on pull and fan-out routes, a publisher, a consumer that settles what it gets) run under the controlled scheduler inside the child; the schedules are enumerated first (quick: 1 preemption; thorough: unbounded under sleep-set reduction), then for every schedule and every crash point of it whose execution prefix was not already reached the child is replayed on that schedule and killed there; the admissible outcomes allow one in-flight operation per client.",
+  "Process death only (page cache survives); power loss is not modelled. Acknowledgement = first WriteHeader/Write. Concurrent part: scheduling points are lock/atomic/connection operations (data-race freedom is the side condition of C03/C18's -race pass).",
   "DESIGN.md §4.3 §6 C01"),
  "C07": ("enum", "exploration",
   "bounded-exhaustive enumeration of bodies x header sets x ingress/publish paths x pull HTTP/gRPC/push delivery x backends x redelivery/restart histories through the real wiring, against an independent reference transformation",
